@@ -106,22 +106,63 @@ Verdict run_case(Choices& c, CaseLog& log)
     World& w = *p.w;
     if (w.rec->has_nan)
         return log.fail("NaN in the step stream");
-    int boundary_action = -1, range_action = -1;
+    int boundary_action = -1, range_action = -1, tracking_cut_action = -1;
     {
         auto const& reg = *w.core->action_reg();
         boundary_action = int(reg.find_action("geo-boundary").get());
+        tracking_cut_action = int(reg.find_action("tracking-cut").get());
         (void)range_action;
     }
     GeoFixture& fix = *p.src.fix;
     auto events = split_events(w.rec->steps);
     long joined = 0, located = 0, rich_tracks = 0, limit_checked = 0;
     double c_light = constants::c_light;
+    // Known finding F41: a step that is NOT limited by a boundary but ends
+    // within the geometry tolerance of a surface (the physics limit ties with
+    // the distance to the boundary to an ulp) leaves the navigator "inside"
+    // while the position is already across; every later anomaly of that track
+    // and of its descendants is a consequence.  Classifier: the track or one
+    // of its ancestors has such a step (oracle: the end point is ambiguous).
+    auto tie_in_history = [&](EventLog const& ev, unsigned track) {
+        int guard = 0;
+        long cur = long(track);
+        while (cur >= 0 && guard++ < 64)
+        {
+            auto it = ev.tracks.find(unsigned(cur));
+            if (it == ev.tracks.end())
+                break;
+            for (StepRec const* sp : it->second.steps)
+            {
+                if (sp->action == boundary_action)
+                    continue;
+                geo::V3 x{{sp->post.pos[0], sp->post.pos[1], sp->post.pos[2]}};
+                geo::LD dl = geo::delta_at(fix.model, x);
+                if (geo::locate(fix.model, x, 4 * dl).ambiguous)
+                    return true;
+            }
+            cur = it->second.parent;
+        }
+        return false;
+    };
+    EventLog const* cur_event = nullptr;
+    unsigned cur_track = 0;
+    auto fail = [&](std::string const& msg) {
+        if (cur_event && !has_field(p.spec.along)
+            && tie_in_history(*cur_event, cur_track))
+            return log.fail(msg
+                                + " [after a physics-limited step that ended "
+                                  "within tolerance of a boundary]",
+                            "F41-step-end-within-tolerance-of-boundary");
+        return log.fail(msg);
+    };
     for (auto const& ek : events)
     {
+        cur_event = &ek.second;
         for (auto const& tk : ek.second.tracks)
         {
             TrackLog const& t = tk.second;
-            bool crossed = false, physlim = false;
+            cur_track = tk.first;
+            bool crossed = false, physlim = false, skip_track = false;
             double mass = w.mass[t.particle];
             for (size_t k = 0; k < t.steps.size(); ++k)
             {
@@ -130,8 +171,18 @@ Verdict run_case(Choices& c, CaseLog& log)
                 id << "event " << s.event << " track " << s.track << " step "
                    << s.step_count << " (pdg " << w.pdg[s.particle]
                    << ", action " << s.action << ")";
+                if (t.steps.size() == 1 && s.step_count == 0 && s.length == 0
+                    && s.action == tracking_cut_action && s.pre.volume < 0)
+                {
+                    // a track that could not be initialised (started outside
+                    // / on a surface) is killed without taking a step; the
+                    // collector reports a zero-length pseudo step
+                    log.label("killed-at-initialisation");
+                    skip_track = true;
+                    break;
+                }
                 if (s.step_count != k + 1)
-                    return log.fail(id.str() + ": step counts are not "
+                    return fail(id.str() + ": step counts are not "
                                     "consecutive from 1");
                 // join-up with the next step
                 if (k + 1 < t.steps.size())
@@ -153,15 +204,15 @@ Verdict run_case(Choices& c, CaseLog& log)
                           << s.post.time << " vs " << n.pre.time << ", vol "
                           << s.post.volume << " vs " << n.pre.volume
                           << ", x " << s.post.pos[0] << " vs " << n.pre.pos[0];
-                        return log.fail(m.str());
+                        return fail(m.str());
                     }
                     ++joined;
                 }
                 // monotone time / energy
                 if (s.post.time < s.pre.time)
-                    return log.fail(id.str() + ": time decreases");
+                    return fail(id.str() + ": time decreases");
                 if (s.post.energy > s.pre.energy)
-                    return log.fail(id.str() + ": kinetic energy increases");
+                    return fail(id.str() + ": kinetic energy increases");
                 // step length
                 bool stopped = (s.pre.energy == 0);
                 if (!(s.length > 0) && !(stopped && s.length == 0))
@@ -169,7 +220,7 @@ Verdict run_case(Choices& c, CaseLog& log)
                     std::ostringstream m;
                     m << id.str() << ": step length " << s.length
                       << " with pre-step energy " << s.pre.energy;
-                    return log.fail(m.str());
+                    return fail(m.str());
                 }
                 // time increment = length / v(E_pre)
                 {
@@ -188,7 +239,7 @@ Verdict run_case(Choices& c, CaseLog& log)
                           << " s != length/speed(E_pre) = " << expect
                           << " s (length " << s.length << ", E_pre " << e
                           << ")";
-                        return log.fail(m.str());
+                        return fail(m.str());
                     }
                 }
                 // displacement <= length
@@ -221,14 +272,14 @@ Verdict run_case(Choices& c, CaseLog& log)
                         m.precision(15);
                         m << id.str() << ": straight-line displacement " << d
                           << " exceeds the step length " << s.length;
-                        return log.fail(m.str());
+                        return fail(m.str());
                     }
                 }
                 // pre-step physics limit
                 auto it = snaps->by_call_slot.find({s.call, s.slot});
                 if (it == snaps->by_call_slot.end()
                     || it->second.track != s.track)
-                    return log.fail(id.str() + ": no harness snapshot for "
+                    return fail(id.str() + ": no harness snapshot for "
                                     "this step (slot/track mismatch)");
                 Snap const& sn = it->second;
                 if (sn.limit >= 0)
@@ -242,7 +293,7 @@ Verdict run_case(Choices& c, CaseLog& log)
                           << " exceeds the physics limit " << sn.limit
                           << " chosen before the step (relative excess "
                           << (s.length / sn.limit - 1) << ")";
-                        return log.fail(m.str());
+                        return fail(m.str());
                     }
                 }
                 // status only moves forward within the step
@@ -260,14 +311,14 @@ Verdict run_case(Choices& c, CaseLog& log)
                         m << id.str() << ": track status sequence start/pre/"
                           << "post = " << a << "/" << b << "/" << cst
                           << " moves backward";
-                        return log.fail(m.str());
+                        return fail(m.str());
                     }
                     if (b >= 0 && b != int(TrackStatus::alive))
                     {
                         std::ostringstream m;
                         m << id.str() << ": a stepping track has status " << b
                           << " at user_pre";
-                        return log.fail(m.str());
+                        return fail(m.str());
                     }
                 }
                 // volume only changes on boundary steps
@@ -277,7 +328,7 @@ Verdict run_case(Choices& c, CaseLog& log)
                     m << id.str() << ": volume changes " << s.pre.volume
                       << " -> " << s.post.volume
                       << " but the step was not limited by a boundary";
-                    return log.fail(m.str());
+                    return fail(m.str());
                 }
                 if (s.action == boundary_action)
                     crossed = true;
@@ -332,6 +383,17 @@ Verdict run_case(Choices& c, CaseLog& log)
                         }
                     }
                     if (judge && !pp.ambiguous && !pp.overlap && !pp.nowhere
+                        && pp.outside() && !on_bnd && s.pre.volume >= 0)
+                    {
+                        std::ostringstream m;
+                        m.precision(15);
+                        m << id.str() << ": pre-step volume " << s.pre.volume
+                          << " but the position (" << s.pre.pos[0] << ", "
+                          << s.pre.pos[1] << ", " << s.pre.pos[2]
+                          << ") lies outside the world";
+                        return fail(m.str());
+                    }
+                    if (judge && !pp.ambiguous && !pp.overlap && !pp.nowhere
                         && !pp.outside())
                     {
                         ++located;
@@ -349,9 +411,34 @@ Verdict run_case(Choices& c, CaseLog& log)
                               << "), previous step action "
                               << (k > 0 ? t.steps[k - 1]->action : -1)
                               << (on_bnd ? " [looked ahead]" : "");
-                            return log.fail(m.str());
+                            return fail(m.str());
                         }
                     }
+                }
+            }
+            if (skip_track)
+                continue;
+            // the end point of the track (unless it sits on a boundary)
+            if (!t.steps.empty() && t.steps.back()->action != boundary_action
+                && located < 4000)
+            {
+                StepRec const& s = *t.steps.back();
+                geo::V3 x{{s.post.pos[0], s.post.pos[1], s.post.pos[2]}};
+                geo::LD dl = geo::delta_at(fix.model, x);
+                geo::Path pp = geo::locate(fix.model, x, 8 * dl);
+                if (!pp.ambiguous && !pp.overlap && !pp.nowhere
+                    && s.post.volume >= 0
+                    && (pp.outside()
+                        || leaf_volume(fix.model, pp) != s.post.volume))
+                {
+                    std::ostringstream m;
+                    m.precision(15);
+                    m << "event " << s.event << " track " << s.track
+                      << " step " << s.step_count << ": post-step volume "
+                      << s.post.volume << " but the end point ("
+                      << s.post.pos[0] << ", " << s.post.pos[1] << ", "
+                      << s.post.pos[2] << ") lies in " << pp.str();
+                    return fail(m.str());
                 }
             }
             if (t.steps.size() >= 3 && crossed && physlim)
